@@ -69,6 +69,11 @@ impl Case {
 
 pub fn gen_user_red(r: &mut Rng) -> Option<[f32; 3]> {
     if r.chance(1, 3) {
+        if r.chance(1, 8) {
+            // more decimals than the three the text form of a factor keeps, next to a carry (0.9996 -> 1.000)
+            let near = |r: &mut Rng| (1 + r.below(2)) as f32 - (1 + r.below(5)) as f32 / 10000.0;
+            return Some([near(r), near(r), r.below(6000) as f32 / 10000.0]);
+        }
         Some([r.below(2000) as f32 / 1000.0, r.below(2500) as f32 / 1000.0, r.below(600) as f32 / 1000.0])
     } else {
         None
@@ -101,6 +106,10 @@ impl Default for FacOpts {
 pub fn gen_user_file(r: &mut Rng, o: &FacOpts) -> String {
     let mut seen: HashSet<u32> = HashSet::new();
     let mut val = |r: &mut Rng, top: u32| -> f32 {
+        if r.chance(1, 25) {
+            // four or five decimals, sometimes next to a carry of the 3-decimal text form (1.9996 -> 2.000)
+            return if r.chance(1, 2) { (1 + r.below(2)) as f32 - (1 + r.below(5)) as f32 / 10000.0 } else { (1 + r.below(top as u64 * 100)) as f32 / 100000.0 };
+        }
         loop {
             let k = 1 + r.below(top as u64) as u32;
             if seen.insert(k) {
